@@ -1,5 +1,5 @@
 \* the unrepaired design checked against the property: TLC must find a counterexample
-CONSTANTS MaxBlocks = 3  MaxTx = 2  MaxOff = 2  QueryCtxNotPrev = TRUE  SimulateRunsMsgOnRoot = TRUE
+CONSTANTS MaxBlocks = 3  MaxTx = 2  MaxOff = 2  QueryCtxNotPrev = TRUE  SimulateRunsMsgOnRoot = TRUE  OffChainMayTrustSig = TRUE
 INIT Init
 NEXT Next
 VIEW view
